@@ -27,7 +27,7 @@ RULE = (
     "while each arrives before last-activity+d (absolute: before D); otherwise the fallback is subscribed exactly then (or the "
     "sequence fails then), never after the source terminated; timeout_with_mapper likewise with the first firing (N or C) of "
     "the first-timeout / per-element timeout observable. Non-trivial: some element within one tick of a boundary (for timeout: "
-    "within one tick of a running deadline). In 1 case of 3 the same built observable is subscribed a second time at a generated tick s1 in s0+{0,1,2,3,7}; the same oracle is applied to that probe with its own subscribe tick, and the fallback must be subscribed once per timed-out subscription. Scheduler passing: the take/skip operators and timeout are run in the modes sub (no argument, subscription carries the lab scheduler), arg (scheduler argument, subscription carries none) and arg-other (argument, subscription carries a different never-started virtual scheduler reading +1000 ticks) and must behave identically; one in four timeout observables and fallbacks is a scheduler-less library factory (timer(d), empty(), return_value, never) that must run on the scheduler in force. Any request for the real-time TimeoutScheduler during a run is refused and reported (realtime-fallback), any action left on the decoy scheduler is reported (wrong-scheduler). skip_last_with_time additionally: every produced element appears at the documented instant - the first source element/completion instant at which it is older than d (age exactly d: that instant or the next) - and an element older than d when a later element arrives must have been produced even if the source then fails or never ends. Thorough tier goes deeper for last/timeout: up to 10 elements per timeline, half of them dense (gaps 0-2), durations up to 8 ticks. One timeout_with_mapper case in four uses the overload WITHOUT a per-element mapper (first timeout only): once an element arrived before the first timeout fired no due time exists any more and the source is mirrored. Check skip_last_feedback: skip_last_with_time over a hot source into which the consumer pushes a new element from inside its on_next for the k-th produced element (it arrives at that instant, age 0, behind everything received before; ignored after completion): every element still produced exactly once, in arrival order, at the documented instants (age exactly d: one rule per run). Distinct = distinct case JSON."
+    "within one tick of a running deadline). In 1 case of 3 the same built observable is subscribed a second time at a generated tick s1 in s0+{0,1,2,3,7}; the same oracle is applied to that probe with its own subscribe tick, and the fallback must be subscribed once per timed-out subscription. Scheduler passing: the take/skip operators and timeout are run in the modes sub (no argument, subscription carries the lab scheduler), arg (scheduler argument, subscription carries none) and arg-other (argument, subscription carries a different never-started virtual scheduler reading +1000 ticks) and must behave identically; one in four timeout observables and fallbacks is a scheduler-less library factory (timer(d), empty(), return_value, never) that must run on the scheduler in force. Any request for the real-time TimeoutScheduler during a run is refused and reported (realtime-fallback), any action left on the decoy scheduler is reported (wrong-scheduler). skip_last_with_time additionally: every produced element appears at the documented instant - the first source element/completion instant at which it is older than d (age exactly d: that instant or the next) - and an element older than d when a later element arrives must have been produced even if the source then fails or never ends. Thorough tier goes deeper for last/timeout: up to 10 elements per timeline, half of them dense (gaps 0-2), durations up to 8 ticks. One timeout_with_mapper case in four uses the overload WITHOUT a per-element mapper (first timeout only): once an element arrived before the first timeout fired no due time exists any more and the source is mirrored. Check skip_last_feedback: skip_last_with_time over a hot source into which the consumer pushes a new element from inside its on_next for the k-th produced element (it arrives at that instant, age 0, behind everything received before; ignored after completion): every element still produced exactly once, in arrival order, at the documented instants (age exactly d: one rule per run). Check window_relations: for d in {0,1,2,3} (zero durations and synchronous sources emphasised) the four take/skip(_until)_with_time operators are run with the duration as int, float and timedelta: the three traces must be identical, no element may be passed by both take_*(d) and skip_*(d), and every element away from the boundary instant must be passed by exactly one of them. Distinct = distinct case JSON."
 )
 ASSUMPTIONS = [
     "at an exact tie between an operator timer and a source notification either order is accepted (one order per timer and instant)",
@@ -109,6 +109,51 @@ def _judge_window(case, lab, p, s0):
         cls.append("notification-at-boundary+1")
     sim = _exp_take if op.startswith("take") else _exp_skip
     return judge(op, case, lab, p, outcomes(lambda ch: sim(eff, B, ch)), cls, _near(eff, B))
+
+
+# ------------------------------------------------------------------------------ relations between forms and between take/skip
+_WIN_OPS = {"take_with_time": ops.take_with_time, "skip_with_time": ops.skip_with_time, "take_until_with_time": ops.take_until_with_time, "skip_until_with_time": ops.skip_until_with_time}
+
+
+def _run_window_rel(case):
+    """Two relations the statement determines even at the boundary instant: (1) the same duration written as int, float or
+    timedelta is the same boundary, so the three traces must be identical; (2) 'exactly the elements before, respectively
+    after': no element is passed by both take_*(d) and skip_*(d), and every element away from the boundary instant is passed
+    by exactly one of them (an element exactly at the boundary may be passed by one of them or by neither)."""
+    s0, d = case["s0"], case["d"]
+    eff = effective(case["src"], s0)
+    allv = [cv(m[2]) for m in eff if m[1] == "N"]
+    cls = [f"clock:{case['clock']}", f"src:{case['src']['kind']}"]
+    if d == 0:
+        cls.append("d=0")
+    if any(m[0] == s0 + d for m in eff if m[1] == "N"):
+        cls.append("element-at-boundary")
+        if d == 0 and case["src"]["kind"] == "sync":
+            cls.append("d=0:element-emitted-inside-subscribe")
+    traces = {}
+    for op in _WIN_OPS:
+        for form in FORMS:
+            lab = mk_lab(case["clock"])
+            src = lab.source(case["src"])
+            p = execute_all(lab, src.pipe(_WIN_OPS[op](targ(lab, form, d))), [s0])[0]
+            r = prelude(lab, p, op, case)
+            if r is not None:
+                return r
+            traces[op, form] = p.trace()
+        a = traces[op, FORMS[0]]
+        for form in FORMS[1:]:
+            if traces[op, form] != a:
+                return FAIL(f"argument-form|{op}", f"{op}({d}) as {FORMS[0]} gives {a} but as {form} gives {traces[op, form]}; case={case}", classes=cls)
+    for t, s in (("take_with_time", "skip_with_time"), ("take_until_with_time", "skip_until_with_time")):
+        for form in FORMS:
+            tv = [e[2] for e in traces[t, form] if e[1] == "N"]
+            sv = [e[2] for e in traces[s, form] if e[1] == "N"]
+            both = [v for v in tv if v in sv]
+            away = [cv(m[2]) for m in eff if m[1] == "N" and m[0] != s0 + d]
+            missing = [v for v in away if v not in tv and v not in sv]
+            if both or missing:
+                return FAIL(f"before-xor-after|{t}+{s}", f"duration {d} ({form}): passed by {t}={tv} passed by {s}={sv} source elements={allv} (passed by both: {both}, away from the boundary but passed by neither: {missing}); case={case}", classes=cls)
+    return OK("element-at-boundary" in cls, cls)
 
 
 # ------------------------------------------------------------------------------ take_last / skip_last with time
@@ -607,6 +652,13 @@ def _skip_last_fb_cases(draw):
     return {"clock": draw(st.sampled_from(CLOCKS)), "s0": s0, "src": spec, "d": d, "form": draw(st.sampled_from(FORMS)), "fb": fb}
 
 
+@st.composite
+def _window_rel_cases(draw):
+    d = draw(st.sampled_from([0, 0, 0, 1, 2, 3]))
+    s0, spec = draw(sources(d=d, max_len=4, min_len=1, kinds=("sync", "sync", "cold", "hot")))
+    return {"clock": draw(st.sampled_from(CLOCKS)), "s0": s0, "src": spec, "d": d}
+
+
 def checks(tier):
     T = 16
     sh = {"quick": 4, "thorough": 16}
@@ -614,6 +666,7 @@ def checks(tier):
     deep = (6, (0, 1, 2, 2, 3, 5)) if tier == "quick" else (10, (0, 1, 2, 3, 5, 8, 8))
     return [
         Check("window", _run_window, strategy=_window_cases(), examples={"quick": 2400, "thorough": T * 12000}, shards=sh),
+        Check("window_relations", _run_window_rel, strategy=_window_rel_cases(), examples={"quick": 400, "thorough": T * 1500}, shards=sh),
         Check("last", _run_last, strategy=_last_cases(*deep), examples={"quick": 2400, "thorough": T * 12000}, shards=sh),
         Check("skip_last_feedback", _run_skip_last_fb, strategy=_skip_last_fb_cases(), examples={"quick": 600, "thorough": T * 3000}, shards=sh),
         Check("timeout", _run_timeout, strategy=_timeout_cases(*deep), examples={"quick": 2400, "thorough": T * 12000}, shards=sh),
